@@ -203,6 +203,13 @@ def compare(rec, fam):
             continue
         if fam.panic_is_failure and first_tok(im) == "panic":
             fails.append((owner[i], i, im))
+        if " ORACLE-FAIL:" in im:
+            # an independent tracker inside the harness judged the real code's behaviour against the property
+            fails.append((owner[i], i, "! FAIL " + im[im.index(" ORACLE-FAIL:") + 13:]))
+            im = im[:im.index(" ORACLE-FAIL:")]
+        if " ALLOC-EXCEEDED" in im:
+            fails.append((owner[i], i, "! FAIL allocation " + im[im.index(" ALLOC-EXCEEDED"):]))
+            im = im[:im.index(" ALLOC-EXCEEDED")]
         if mo is None:
             mism.append((owner[i], i, "model produced no output: " + str(rec["model_err"])))
             continue
